@@ -58,7 +58,11 @@ c.ensures('frame[elems]', lambda c: unchanged_elems(c.pre, c.cur, lambda s: s ==
 
 
 # ---------------------------------------------------------------- AbstractJob.requires
-ARG = z3.Function('ARG', Ref, L.B)       # x belongs to the (finitely nested) argument structure of a requires() call
+def new_ARG():
+    return z3.Function(L.fresh_name('ARG'), Ref, L.B)
+
+
+NO_ARG = lambda x: z3.BoolVal(False)      # default ghost argument: the items are plain jobs or None
 
 
 def other_iterable(x):
@@ -66,23 +70,29 @@ def other_iterable(x):
                Not(isa['tuple'](x)), Not(isa['set'](x)))
 
 
-def arg_closure(st):
-    """input validity of an argument structure: closed under taking items; its set containers are plain local
-    sets (not the requirement container of a job), everything in it is alive"""
+def argok(st, x, ARG):
+    """an admissible item of an argument structure: None, a live job, or a container / sequence of ARG"""
+    return Or(x == NONE, And(isa['AbstractJob'](x), st.alive(x)), ARG(x))
+
+
+def arg_closure(st, ARG):
+    """input validity of argument structures (ARG = the containers and sequences inside them): closed under
+    taking items; set containers are plain local sets (not the requirement container of a job); everything is
+    alive; only lists, tuples, sets and Sequences (what the statement speaks of)"""
     x, e = q(2)
     i = fresh('i', L.I)
     sj = st.f('seqjobs', x)
     return And(
         ForAll([x, i], Implies(And(ARG(x), Or(isa['list'](x), isa['tuple'](x)), 0 <= i, i < st.llen(x)),
-                               ARG(st.lat(x, i))), patterns=[z3.MultiPattern(ARG(x), st.lat(x, i))]),
-        ForAll([x, e], Implies(And(ARG(x), isa['set'](x), st.mem(x, e)), ARG(e)),
+                               argok(st, st.lat(x, i), ARG)), patterns=[z3.MultiPattern(ARG(x), st.lat(x, i))]),
+        ForAll([x, e], Implies(And(ARG(x), isa['set'](x), st.mem(x, e)), argok(st, e, ARG)),
                patterns=[z3.MultiPattern(ARG(x), st.mem(x, e))]),
         ForAll([x], Implies(And(ARG(x), isa['Sequence'](x), st.llen(sj) > 0),
-                            And(ARG(st.lat(sj, st.llen(sj) - 1)), isa['AbstractJob'](st.lat(sj, st.llen(sj) - 1)))),
+                            And(isa['AbstractJob'](st.lat(sj, st.llen(sj) - 1)), st.alive(st.lat(sj, st.llen(sj) - 1)))),
                patterns=[z3.MultiPattern(ARG(x), isa['Sequence'](x))]),
-        # arbitrary other iterables are outside the statement (lists, tuples and sets are what it speaks of)
-        ForAll([x], Implies(ARG(x), Not(other_iterable(x))), patterns=[ARG(x)]),
-        ForAll([x], Implies(ARG(x), st.alive(x)), patterns=[ARG(x)]),
+        ForAll([x], Implies(ARG(x), And(st.alive(x), Not(isa['AbstractJob'](x)), x != NONE,
+                                        Or(isa['list'](x), isa['tuple'](x), isa['set'](x), isa['Sequence'](x)))),
+               patterns=[ARG(x)]),
         ForAll([x], Implies(And(ARG(x), isa['set'](x)), st.f('$setrole', x) == 0), patterns=[ARG(x)]),
         ForAll([x], Implies(And(ARG(x), isa['Sequence'](x)), And(st.alive(sj), Not(ARG(sj)))),
                patterns=[z3.MultiPattern(ARG(x), isa['Sequence'](x))]))
@@ -97,7 +107,8 @@ def leaves_fn(c, st):
        None -> {} ; a job -> {job} ; a Sequence -> {its last job} or {} ; a tuple/list/set -> union over its items.
     One rigid function; its unfolding axioms are stated on the given state and only for objects of the argument
     structure (ARG), whose containers no state of the call tree changes (frame obligations of requires())."""
-    key = tuple(st.H(f).get_id() for f in ('$elems', '$llen', '$lat', 'seqjobs'))
+    ARG = c.ghost['ARG']
+    key = tuple(st.H(f).get_id() for f in ('$elems', '$llen', '$lat', 'seqjobs')) + (id(ARG),)
     if key not in _LEAVES_AX:
         lv = LEAVES
         x, y, e = q(3)
@@ -137,9 +148,11 @@ c = contract('AbstractJob.requires', FJ).param('self').param('requirements', 'va
 c.for_props('C19', 'C18')
 c.fieldmap = {'jobs': 'seqjobs'}
 c.requires('self-is-a-job', lambda c: isa['AbstractJob'](c.a.self))
-c.requires('argument-structure', lambda c: And(arg_closure(c.pre), (lambda i: ForAll([i], Implies(
-    And(0 <= i, i < c.pre.llen(c.a.requirements)), ARG(c.pre.lat(c.a.requirements, i))),
-    patterns=[c.pre.lat(c.a.requirements, i)]))(fresh('i', L.I)), Not(ARG(c.a.requirements))))
+c.ghost_params = {'ARG': (new_ARG, NO_ARG)}
+c.ghost_pass = {'AbstractJob.requires': lambda cc: {'ARG': cc.ghost['ARG']}}      # recursive calls: same structure
+c.requires('argument-structure', lambda c: And(arg_closure(c.pre, c.ghost['ARG']), (lambda i: ForAll([i], Implies(
+    And(0 <= i, i < c.pre.llen(c.a.requirements)), argok(c.pre, c.pre.lat(c.a.requirements, i), c.ghost['ARG'])),
+    patterns=[c.pre.lat(c.a.requirements, i)]))(fresh('i', L.I)), Not(c.ghost['ARG'](c.a.requirements))))
 c.modifies('$elems', '$alive', '$llen', '$lat', '$setrole')
 
 
@@ -372,9 +385,16 @@ def _fl_post(c):
 
 c.ensures('result-is-the-flattened-list', _fl_post, props=['C19'])
 c.ensures('result-fresh', lambda c: And(Not(c.pre.alive(c.result)), c.cur.alive(c.result), isa['list'](c.result)))
+c.ensures('elements-are-live-jobs', lambda c: And(c.cur.llen(c.result) >= 0, seq_jobs_ok(c.cur, c.result)))
 c.ensures('frame[lists]', lambda c: (lambda s: ForAll([s], Implies(c.pre.alive(s), And(
     c.cur.llen(s) == c.pre.llen(s), Select(c.cur.H('$lat'), s) == Select(c.pre.H('$lat'), s))),
     patterns=[c.cur.llen(s)]))(q()))
+
+
+def seq_jobs_ok(st, sj):
+    p = fresh('p', L.I)
+    return ForAll([p], Implies(And(0 <= p, p < st.llen(sj)), And(isa['AbstractJob'](st.lat(sj, p)), st.alive(st.lat(sj, p)))),
+                  patterns=[st.lat(sj, p)])
 
 
 def _fl_loop(c):
@@ -385,6 +405,7 @@ def _fl_loop(c):
     return [
         ('flat-of-the-prefix', flat_spec(c, st, args, res, c.index, _fl_off(c))),
         ('result-fresh', And(Not(c.pre.alive(res)), st.alive(res), isa['list'](res))),
+        ('elements-are-live-jobs', And(st.llen(res) >= 0, seq_jobs_ok(st, res))),
         ('frame[lists]', ForAll([s], Implies(c.pre.alive(s), And(
             st.llen(s) == c.pre.llen(s), Select(st.H('$lat'), s) == Select(c.pre.H('$lat'), s))),
             patterns=[st.llen(s)])),
@@ -416,7 +437,8 @@ def _fl_hints(h, e):
     ]
 
 
-c.loop(0, inv=_cl(_fl_loop, ['flat-of-the-prefix', 'result-fresh', 'frame[lists]'], 'fl'), hints=_fl_hints)
+c.loop(0, inv=_cl(_fl_loop, ['flat-of-the-prefix', 'result-fresh', 'elements-are-live-jobs', 'frame[lists]'], 'fl'),
+       hints=_fl_hints)
 
 
 # ---------------------------------------------------------------- PureScheduler.update / add / remove
@@ -523,3 +545,129 @@ def flatten_args_ok_one(st, x):
                ForAll([p], Implies(And(0 <= p, p < st.llen(sj)),
                                    And(isa['AbstractJob'](st.lat(sj, p)), st.alive(st.lat(sj, p)))),
                       patterns=[st.lat(sj, p)]))
+
+
+# ---------------------------------------------------------------- Sequence
+def chain_edges(c, st, lst, upto):
+    """(a, b): a is the job right after b among the first `upto`+1 positions of list lst, a is not b"""
+    i = fresh('i', L.I)
+    return lambda a, b: Exists([i], And(0 <= i, i < upto, st.lat(lst, i + 1) == a, st.lat(lst, i) == b, a != b))
+
+
+def req_changed_only_by(c, st, extra):
+    """requirement edges now = requirement edges on entry + extra(a, b)"""
+    a, b = q(2)
+    return ForAll([a, b], Implies(And(isa['AbstractJob'](a), c.pre.alive(a)),
+                                  E(st, a, b) == Or(E(c.pre, a, b), extra(a, b))), patterns=[E(st, a, b)])
+
+
+def seq_jobs_ok(st, sj):
+    p = fresh('p', L.I)
+    return ForAll([p], Implies(And(0 <= p, p < st.llen(sj)), And(isa['AbstractJob'](st.lat(sj, p)), st.alive(st.lat(sj, p)))),
+                  patterns=[st.lat(sj, p)])
+
+
+c = contract('Sequence.requires', FS).param('self').param('requirements', 'varargs').returns('none')
+c.for_props('C19')
+c.fieldmap = {'jobs': 'seqjobs'}
+c.ghost_params = {'ARG': (new_ARG, NO_ARG)}
+c.ghost_pass = {'AbstractJob.requires': lambda cc: {'ARG': cc.ghost['ARG']}}
+c.requires('self-is-a-sequence', lambda c: And(isa['Sequence'](c.a.self), c.pre.alive(c.pre.f('seqjobs', c.a.self)),
+                                               seq_jobs_ok(c.pre, c.pre.f('seqjobs', c.a.self)),
+                                               c.pre.llen(c.pre.f('seqjobs', c.a.self)) >= 0))
+c.requires('argument-structure', lambda c: And(arg_closure(c.pre, c.ghost['ARG']), (lambda i: ForAll([i], Implies(
+    And(0 <= i, i < c.pre.llen(c.a.requirements)), argok(c.pre, c.pre.lat(c.a.requirements, i), c.ghost['ARG'])),
+    patterns=[c.pre.lat(c.a.requirements, i)]))(fresh('i', L.I)), Not(c.ghost['ARG'](c.a.requirements))))
+c.modifies('$elems', '$alive', '$llen', '$lat', '$setrole')
+
+
+def _sr_post(c):
+    sj = c.pre.f('seqjobs', c.a.self)
+    first = c.pre.lat(sj, 0)
+    lv = leaves_fn(c, c.pre)
+    LV = prefix_leaves(c, lv, c.a.requirements, c.pre.llen(c.a.requirements))
+    nonempty = c.pre.llen(sj) > 0
+    return req_changed_only_by(c, c.cur, lambda a, b: And(nonempty, a == first, LV(b), b != first))
+
+
+c.ensures('gives-the-requirements-to-the-first-job-only', _sr_post, props=['C19'])
+
+
+def _seq_arg_struct(c, names):
+    ARG = c.ghost['ARG']
+    return And(arg_closure(c.pre, ARG), *[argok(c.pre, c.args[n], ARG) for n in names])
+
+
+c = contract('Sequence.__init__', FS).param('self').param('sequences_or_jobs', 'varargs') \
+    .param('required', 'kw:ref', None).param('scheduler', 'kw:ref', None).returns('none')
+c.for_props('C19')
+c.fieldmap = {'jobs': 'seqjobs'}
+c.ghost_params = {'ARG': (new_ARG, NO_ARG)}
+c.ghost_pass = {'AbstractJob.requires': lambda cc: {'ARG': cc.ghost['ARG']}}
+c.requires('self-is-a-sequence', lambda c: isa['Sequence'](c.a.self))
+c.requires('arguments-are-jobs-sequences-or-None', lambda c: flatten_args_ok(c.pre, c.a.sequences_or_jobs))
+c.requires('argument-structure-of-required', lambda c: _seq_arg_struct(c, ['required']))
+c.requires('scheduler-is-None-or-a-scheduler', lambda c: Or(c.a.scheduler == NONE,
+                                                            And(is_sched(c.a.scheduler), c.pre.alive(c.a.scheduler))))
+c.modifies('$elems', '$alive', '$llen', '$lat', '$setrole', 'seqjobs', 'scheduler')
+
+
+def _si_jobs(c):
+    """self.jobs is the flattened argument list"""
+    sj = c.cur.f('seqjobs', c.a.self)
+    off = c.cur.g.get('$flat-off') if c.mode == 'prove' else define_off(c, c.a.sequences_or_jobs)
+    if off is None:
+        return z3.BoolVal(False)
+    if c.mode != 'prove':
+        c.cur.g['$flat-off'] = off
+        c.cur.g['$flat-res'] = sj
+        c.cur.g['$flat-args'] = c.a.sequences_or_jobs
+    return And(flat_spec(c, c.cur, c.a.sequences_or_jobs, sj, c.pre.llen(c.a.sequences_or_jobs), off),
+               Not(c.pre.alive(sj)), c.cur.alive(sj), isa['list'](sj))
+
+
+def _si_edges(c):
+    sj = c.cur.f('seqjobs', c.a.self)
+    n = c.cur.llen(sj)
+    first = c.cur.lat(sj, 0)
+    lv = leaves_fn(c, c.pre)
+    chain = chain_edges(c, c.cur, sj, z3.If(n >= 1, n - 1, 0))
+    return req_changed_only_by(c, c.cur, lambda a, b: Or(
+        chain(a, b), And(n > 0, a == first, Select(lv(c.a.required), b), b != first)))
+
+
+def _si_sched(c):
+    S = c.a.scheduler
+    sj = c.cur.f('seqjobs', c.a.self)
+    y = q()
+    p = fresh('p', L.I)
+    inlist = lambda y_: Exists([p], And(0 <= p, p < c.cur.llen(sj), c.cur.lat(sj, p) == y_))
+    return And(c.cur.f('scheduler', c.a.self) == S,
+               Implies(S != NONE, ForAll([y], member(c.cur, S, y) == Or(member(c.pre, S, y), inlist(y)),
+                                         patterns=[member(c.cur, S, y)])))
+
+
+c.ensures('jobs-is-the-flattened-list', _si_jobs, props=['C19'])
+c.ensures('each-job-requires-its-predecessor-and-the-first-gets-required', _si_edges, props=['C19'])
+c.ensures('registers-every-job-in-the-scheduler', _si_sched, props=['C19'])
+
+
+def _si_loop(c):
+    st = c.cur
+    sj = st.f('seqjobs', c.a.self)
+    s = q()
+    return [
+        ('chain-of-the-visited-pairs', req_changed_only_by(c, st, chain_edges(c, st, sj, c.index))),
+        ('lists-stable', And(st.H('seqjobs') == c.loop_pre.H('seqjobs'),
+                             ForAll([s], Implies(c.loop_pre.alive(s), And(
+                                 st.llen(s) == c.loop_pre.llen(s),
+                                 Select(st.H('$lat'), s) == Select(c.loop_pre.H('$lat'), s),
+                                 st.f('$setrole', s) == c.loop_pre.f('$setrole', s))), patterns=[st.llen(s)]))),
+        ('other-sets', ForAll([s], Implies(And(c.pre.alive(s), st.f('$setrole', s) != 1), st.elems(s) == c.pre.elems(s)),
+                              patterns=[st.elems(s)])),
+        ('argument-structure-stable', And(arg_closure(st, c.ghost['ARG']), argok(st, c.a.required, c.ghost['ARG']))),
+    ]
+
+
+c.loop(0, inv=_cl(_si_loop, ['chain-of-the-visited-pairs', 'lists-stable', 'other-sets', 'argument-structure-stable'], 'si'))
+c.post_hints = lambda c: flat_view_lemmas(c, c.cur) if c.mode == 'prove' else []
